@@ -39,58 +39,81 @@ fn er_contract<const L: usize, const QUERIES: bool, const REMOVE: bool>()
     let id = any_sys();
     vlog!("REPLAY-INPUT list={:?} query rtype={:?} id={}", dbg(&before), rt, id.0.index());
     if QUERIES {
-    // iter_rtype / count / iter_reactors against the list (as multisets: no order among reactors is promised)
+    // iter_rtype / count / iter_reactors against the list (as multisets: no order among reactors is promised); the iterators are
+    // drained ONCE into arrays, the counting is done on arrays (cheap for CBMC)
     let mut expect_n = 0usize;
     let mut j = 0;
     while j < L { if before[j].0 == rt { expect_n += 1; } j += 1; }
     assert!(er.count(rt) == expect_n, "EntityReactors::count: number of registrations of this reaction type");
-    assert!(er.iter_rtype(rt).count() == expect_n, "EntityReactors::iter_rtype: yields one item per registration of this reaction type");
+    let mut got = [SystemCommand(Entity::PLACEHOLDER); 5];
+    let mut n_got = 0usize;
+    let mut it = er.iter_rtype(rt);
+    let mut k = 0;
+    while k <= L { match it.next() { Some(s) => { assert!(n_got < L, "EntityReactors::iter_rtype: yields at most one item per registration"); got[n_got] = s; n_got += 1; } None => {} } k += 1; }
+    drop(it);
+    assert!(n_got == expect_n, "EntityReactors::iter_rtype: yields one item per registration of this reaction type");
+    let mut all = [SystemCommand(Entity::PLACEHOLDER); 5];
+    let mut n_all = 0usize;
+    let mut it = er.iter_reactors();
+    let mut k = 0;
+    while k <= L { match it.next() { Some(s) => { assert!(n_all < L, "EntityReactors::iter_reactors: nothing else"); all[n_all] = s; n_all += 1; } None => {} } k += 1; }
+    drop(it);
+    assert!(n_all == L, "EntityReactors::iter_reactors: every registration's reactor, nothing else");
     let mut j = 0;
     while j < L {
-        let want = { let mut c = 0; let mut k = 0; while k < L { if before[k].0 == rt && before[k].1 == before[j].1 { c += 1; } k += 1; } c };
-        let got = er.iter_rtype(rt).filter(|s| *s == before[j].1).count();
-        assert!(got == want, "EntityReactors::iter_rtype: yields exactly the reactors registered for this reaction type, each once per registration");
-        let want_all = { let mut c = 0; let mut k = 0; while k < L { if before[k].1 == before[j].1 { c += 1; } k += 1; } c };
-        assert!(er.iter_reactors().filter(|s| *s == before[j].1).count() == want_all, "EntityReactors::iter_reactors: every registration's reactor");
+        let x = before[j].1;
+        let (mut want, mut want_all, mut g, mut ga) = (0, 0, 0, 0);
+        let mut k = 0;
+        while k < L { if before[k].1 == x { want_all += 1; if before[k].0 == rt { want += 1; } } k += 1; }
+        let mut k = 0; while k < n_got { if got[k] == x { g += 1; } k += 1; }
+        let mut k = 0; while k < n_all { if all[k] == x { ga += 1; } k += 1; }
+        assert!(g == want, "EntityReactors::iter_rtype: yields exactly the reactors registered for this reaction type, each once per registration");
+        assert!(ga == want_all, "EntityReactors::iter_reactors: every registration's reactor");
         j += 1;
     }
-    assert!(er.iter_reactors().count() == L, "EntityReactors::iter_reactors: nothing else");
     }
     if !REMOVE { core::mem::forget(er); return; }
 
     er.remove(rt, id);
 
     vlog!("REPLAY-OUTPUT after remove: {:?}", dbg_er(&er));
+    // copy the list out once
+    let m = er.reactors.len();
+    assert!(m <= L, "EntityReactors::remove: never adds entries");
+    let mut after = [(EntityReactionType::Insertion(tid(0)), SystemCommand(Entity::PLACEHOLDER)); 5];
+    let mut k = 0;
+    while k < m { after[k] = (er.reactors[k].0, er.reactors[k].1.sys_command()); k += 1; }
     let mut kept = 0usize;
     let mut j = 0;
     while j < L {
         let hit = before[j].0 == rt && before[j].1 == id;
         if !hit {
             kept += 1;
-            let want = { let mut c = 0; let mut k = 0; while k < L { if before[k].0 == before[j].0 && before[k].1 == before[j].1 { c += 1; } k += 1; } c };
-            let got = er.reactors.iter().filter(|(r, h)| *r == before[j].0 && h.sys_command() == before[j].1).count();
-            assert!(got == want, "EntityReactors::remove: entries of another reaction type or another reactor stay");
+            let (mut want, mut gotc) = (0, 0);
+            let mut k = 0; while k < L { if before[k].0 == before[j].0 && before[k].1 == before[j].1 { want += 1; } k += 1; }
+            let mut k = 0; while k < m { if after[k].0 == before[j].0 && after[k].1 == before[j].1 { gotc += 1; } k += 1; }
+            assert!(gotc == want, "EntityReactors::remove: entries of another reaction type or another reactor stay");
         }
         j += 1;
     }
-    assert!(er.reactors.len() == kept, "EntityReactors::remove: every entry matching (reaction type, reactor) is gone, nothing else");
+    assert!(m == kept, "EntityReactors::remove: every entry matching (reaction type, reactor) is gone, nothing else");
     core::mem::forget(er);
 }
 
 //# id=K.entity_reactors.remove.L0 props=C01,C06,C16 strength=bounded shape="per-entity list L=0" tier=quick fns=EntityReactors::insert,EntityReactors::remove
-#[kani::proof] #[kani::unwind(3)] fn k_entity_reactors_remove_l0() { er_contract::<0, false, true>(); }
+#[kani::proof] #[kani::unwind(4)] fn k_entity_reactors_remove_l0() { er_contract::<0, false, true>(); }
 //# id=K.entity_reactors.remove.L1 props=C01,C06,C16 strength=bounded shape="per-entity list L=1, all contents" tier=quick fns=EntityReactors::insert,EntityReactors::remove
-#[kani::proof] #[kani::unwind(4)] fn k_entity_reactors_remove_l1() { er_contract::<1, false, true>(); }
+#[kani::proof] #[kani::unwind(5)] fn k_entity_reactors_remove_l1() { er_contract::<1, false, true>(); }
 //# id=K.entity_reactors.remove.L2 props=C01,C06,C16 strength=bounded shape="per-entity list L=2, all contents" tier=quick fns=EntityReactors::insert,EntityReactors::remove
-#[kani::proof] #[kani::unwind(5)] fn k_entity_reactors_remove_l2() { er_contract::<2, false, true>(); }
-//# id=K.entity_reactors.remove.L3 props=C01,C06,C16 strength=bounded shape="per-entity list L=3, all contents" tier=thorough fns=EntityReactors::insert,EntityReactors::remove
-#[kani::proof] #[kani::unwind(6)] fn k_entity_reactors_remove_l3() { er_contract::<3, false, true>(); }
+#[kani::proof] #[kani::unwind(6)] fn k_entity_reactors_remove_l2() { er_contract::<2, false, true>(); }
+//# id=K.entity_reactors.remove.L3 props=C01,C06,C16 strength=bounded shape="per-entity list L=3, all contents" tier=quick fns=EntityReactors::insert,EntityReactors::remove
+#[kani::proof] #[kani::unwind(7)] fn k_entity_reactors_remove_l3() { er_contract::<3, false, true>(); }
 //# id=K.entity_reactors.remove.L4 props=C01,C06,C16 strength=bounded shape="per-entity list L=4, all contents" tier=thorough fns=EntityReactors::insert,EntityReactors::remove
-#[kani::proof] #[kani::unwind(7)] fn k_entity_reactors_remove_l4() { er_contract::<4, false, true>(); }
+#[kani::proof] #[kani::unwind(8)] fn k_entity_reactors_remove_l4() { er_contract::<4, false, true>(); }
 //# id=K.entity_reactors.queries.L1 props=C01,C16 strength=bounded shape="per-entity list L=1, all contents" tier=quick fns=EntityReactors::insert,EntityReactors::count,EntityReactors::iter_rtype,EntityReactors::iter_reactors
-#[kani::proof] #[kani::unwind(4)] fn k_entity_reactors_queries_l1() { er_contract::<1, true, false>(); }
+#[kani::proof] #[kani::unwind(5)] fn k_entity_reactors_queries_l1() { er_contract::<1, true, false>(); }
 //# id=K.entity_reactors.queries.L2 props=C01,C16 strength=bounded shape="per-entity list L=2, all contents" tier=quick fns=EntityReactors::insert,EntityReactors::count,EntityReactors::iter_rtype,EntityReactors::iter_reactors
-#[kani::proof] #[kani::unwind(5)] fn k_entity_reactors_queries_l2() { er_contract::<2, true, false>(); }
+#[kani::proof] #[kani::unwind(6)] fn k_entity_reactors_queries_l2() { er_contract::<2, true, false>(); }
 
 // ---------------------------------------------------------------------------------------------------------------
 // K.token.*: RevokeToken (C06, C16).
